@@ -25,7 +25,7 @@ def main():
             with contextlib.redirect_stdout(io.StringIO()), warnings.catch_warnings():
                 warnings.simplefilter('ignore')
                 c = sv.compile(pat, ns, flags, **kw)
-        except (KeyError, sv.SelectorSyntaxError):
+        except (KeyError, sv.SelectorSyntaxError, NotImplementedError):
             out.append(None)     # a key compile() rejects with a documented error: nothing to pickle
             continue
         out.append(base64.b64encode(pickle.dumps(c)).decode('ascii'))
